@@ -43,6 +43,7 @@ type c16World struct {
 	appRan  bool
 	appOK   bool
 	lastCtx context.Context // context of the latest request that reached the application (carries that request's flow data)
+	cavFail string
 }
 
 func cavList(ids []uint64) []macaroon.Caveat {
@@ -62,7 +63,7 @@ func newC16World(r *rng.R) *c16World {
 	for i := 0; i < 3; i++ {
 		m, _ := macaroon.New([]byte{byte(i)}, c16First, w.key)
 		m.Add(sym.Table[0]())
-		m.Add3P(w.ka, c16TPLoc)
+		m.Add3P(w.ka, c16TPLoc, &macaroon.ValidityWindow{NotBefore: int64(i), NotAfter: 1 << 41}) // the ticket's own caveats: distinct per ticket
 		w.roots = append(w.roots, m)
 		w.tickets = append(w.tickets, m.TicketsForThirdParty(c16TPLoc)[0])
 	}
@@ -70,6 +71,27 @@ func newC16World(r *rng.R) *c16World {
 	o.Add3P(macaroon.NewEncryptionKey(), c16TPLoc)
 	w.foreign = o.TicketsForThirdParty(c16TPLoc)[0]
 	return w
+}
+
+// checkTicketCaveats: what the application is shown as "the caveats of the ticket of this request's flow" are that
+// ticket's caveats (ticket i carries ValidityWindow{NotBefore: i}); want < 0: any one of the known tickets
+func (w *c16World) checkTicketCaveats(rq *http.Request, want int64) {
+	cavs, err := tp.CaveatsFromRequest(rq)
+	if w.cavFail != "" {
+		return
+	}
+	if err != nil {
+		w.cavFail = "CaveatsFromRequest fails inside the application handler: " + err.Error()
+		return
+	}
+	if len(cavs) != 1 {
+		w.cavFail = fmt.Sprintf("CaveatsFromRequest returns %d caveats, the ticket carries 1", len(cavs))
+		return
+	}
+	vw, ok := cavs[0].(*macaroon.ValidityWindow)
+	if !ok || vw.NotBefore < 0 || vw.NotBefore > 2 || (want >= 0 && vw.NotBefore != want) {
+		w.cavFail = fmt.Sprintf("CaveatsFromRequest returns %v, not the caveats of ticket %d", cavs[0], want)
+	}
 }
 
 // classify a JSON response body
@@ -254,6 +276,7 @@ func (w *c16World) do(a c16Act, r *rng.R) []int64 {
 		app := http.HandlerFunc(func(rw http.ResponseWriter, rq *http.Request) {
 			w.appRan = true
 			w.lastCtx = rq.Context()
+			w.checkTicketCaveats(rq, int64(a.TI))
 			switch a.Mode {
 			case "MImmediate":
 				w.tp.RespondDischarge(rw, rq, cavList(a.Cavs)...)
@@ -279,6 +302,7 @@ func (w *c16World) do(a c16Act, r *rng.R) []int64 {
 		app := http.HandlerFunc(func(rw http.ResponseWriter, rq *http.Request) {
 			w.appRan = true
 			w.lastCtx = rq.Context()
+			w.checkTicketCaveats(rq, -1)
 			us, err := w.tp.Store.UserSecretFromRequest(rq)
 			if err != nil {
 				w.appOK = false
@@ -500,6 +524,9 @@ func genC16(c *ctx) {
 					oracle = "a guessed or crossed secret obtained a discharge"
 				}
 			}
+		}
+		if oracle == "" {
+			oracle = w.cavFail
 		}
 		st.Add(&cs.Case{
 			Coq:        coqw.App("KTP", coqw.ListOf(acts, c16Act.Coq), sym.ObsCoq(obs)),
